@@ -31,7 +31,7 @@ def parseCPod (idx : Nat) (t : String) : CPod :=
            owner := .none, selMatch := false, member := false }
 
 def parseKind : String → ErrKind
-  | "conflict" => .conflict | "notfound" => .notFound | "exists" => .alreadyExists | "invalid" => .invalid | _ => .other
+  | "conflict" => .conflict | "conflictgone" => .conflict | "notfound" => .notFound | "exists" => .alreadyExists | "invalid" => .invalid | _ => .other
 
 structure SyCase where
   i : SyncIn
